@@ -20,6 +20,11 @@
 //	                   pending ribUpdate runs on the removed neighbour state => <dump of u> ann=ok | skip
 //	dead <u> <w>       u's dead-neighbor check removes w     => <dump of u> | skip
 //	sweep <u> <w1,w2,..> ONE dead-neighbor check of u finds all of them dead => <dump of u> | skip
+//	timeout <u> <w>    the Interest of u's latest advertisement fetch of w times out once (the router's
+//	                   retry loop must re-express it)        => <dump of u> pending=<0|1> ann=ok | skip
+//	outage <u> <w>     ... it keeps timing out for longer than the dead interval (no deadcheck in between)
+//	cfg <adv> <dead>   the real Config.Parse on these intervals (ms)   => accept | reject
+//	new <n> <adv> <dead>  routers with these intervals       => ok <hashes> | rejected
 //	check              dump of every router                  => r0 <dump> ; r1 <dump> ; ...
 //	tick               more than a dead interval passes: heartbeats with unchanged numbers over the up
 //	                   links (real advertSyncOnInterest), then the deadcheck sweep at every router
@@ -34,9 +39,11 @@ import (
 	"strings"
 	"testing"
 	"testing/synctest"
+	"time"
 
 	"github.com/named-data/ndnd/dv/tlv"
 	enc "github.com/named-data/ndnd/std/encoding"
+	"github.com/named-data/ndnd/std/ndn"
 
 	"verif/harness/c18/dvsim"
 	"verif/harness/common"
@@ -327,6 +334,40 @@ func (h *hgen) converge() {
 	h.g.Stat("quiescence-check")
 }
 
+// an advertisement fetch is outstanding when the link fails; the outage lasts longer than the dead interval
+// but the link is back (heartbeat) before the next deadcheck; the fetch must still complete
+func (h *hgen) outage() {
+	var cands [][3]int
+	for _, e := range h.t.directed() {
+		for _, o := range h.incident(e.b) {
+			if o.b != e.a {
+				cands = append(cands, [3]int{e.a, e.b, o.b})
+			}
+		}
+	}
+	if len(cands) == 0 {
+		return
+	}
+	c := cands[h.r.Intn(len(cands))]
+	a, b, y := c[0], c[1], c[2]
+	h.g.Stat("outage-episode")
+	// b's advertisement changes (it loses y), a is told and starts to fetch
+	h.t.adj[b][y], h.t.adj[y][b] = false, false
+	h.g.Op("unlink %d %d", b, y)
+	h.g.Op("dead %d %d", b, y)
+	h.g.Op("dead %d %d", y, b)
+	h.g.Op("snap %d %d", a, b)
+	if h.r.Chance(1, 3) {
+		h.g.Op("timeout %d %d", a, b)
+	}
+	h.g.Op("unlink %d %d", a, b)
+	h.g.Op("outage %d %d", a, b)
+	h.g.Op("link %d %d", a, b)
+	h.g.Op("fetch %d %d", a, b) // the neighbour's heartbeat: same number as announced before the outage
+	h.g.Op("fetch %d %d", b, a)
+	h.g.Op("reply %d %d last", a, b)
+}
+
 // a router restarts soon after it (and its neighbours) learnt something: the neighbours remember a
 // sequence number of the old instance, the new instance has to be fetched from again
 func (h *hgen) earlyRestart() {
@@ -432,7 +473,25 @@ func (h *hgen) incident(x int) []edge {
 func (h *hgen) history(t *topo, cycles int) {
 	h.t = t
 	h.ever = t.edges()
-	h.g.Op("new %d", t.n)
+	if h.r.Chance(1, 8) {
+		// routers with non-default intervals, if the real Config.Parse accepts them
+		pairs := [][2]int{{5000, 10000}, {5000, 10001}, {6000, 30000}, {5000, 9999}, {5000, 5000}, {5000, 3000}, {8000, 4000}}
+		pr := pairs[h.r.Intn(len(pairs))]
+		h.g.Op("new %d %d %d", t.n, pr[0], pr[1])
+		h.g.Stat("new-with-intervals")
+	} else {
+		h.g.Op("new %d", t.n)
+	}
+	// the configuration check on pairs around the boundary "dead interval at least 2 advertise intervals"
+	if h.r.Chance(1, 2) {
+		adv := uint64(common.Pick(h.r, []int{1000, 2000, 5000, 7000}))
+		for _, dead := range []uint64{2*adv - 1, 2 * adv, 2*adv + 1, adv, adv / 2, 1, 0, 30000} {
+			if h.r.Chance(1, 2) {
+				h.g.Op("cfg %d %d", adv, dead)
+				h.g.Stat("cfg")
+			}
+		}
+	}
 	h.g.Stat(fmt.Sprintf("routers-%d", t.n))
 	for _, e := range t.edges() {
 		h.g.Op("link %d %d", e.a, e.b)
@@ -447,6 +506,10 @@ func (h *hgen) history(t *topo, cycles int) {
 	h.converge()
 	if h.r.Chance(1, 2) {
 		h.reorder()
+		h.converge()
+	}
+	if h.r.Chance(1, 3) {
+		h.outage()
 		h.converge()
 	}
 	if h.r.Chance(1, 4) {
@@ -533,6 +596,7 @@ func gen(g *common.Gen) {
 type flight struct {
 	p       dvsim.Pending
 	content []byte
+	live    bool // the Interest is still pending at the router (not yet timed out without a retry)
 }
 
 var (
@@ -579,10 +643,28 @@ func valid(f []string, k int) ([]int, bool) {
 func exec(op string) string {
 	f := common.Fields(op)
 	switch f[0] {
+	case "cfg":
+		// the REAL Config.Parse on the given advertise / dead intervals (milliseconds)
+		if len(f) != 3 {
+			return "bad-op"
+		}
+		if err := dvsim.ParseConfig(common.Atou(f[1]), common.Atou(f[2])); err != nil {
+			return "reject"
+		}
+		return "accept"
 	case "new":
 		sim.Close()
+		sim = nil
 		n := common.Atoi(f[1])
-		sim = dvsim.NewSim(n)
+		if len(f) == 4 {
+			var err error
+			if sim, err = dvsim.NewSimCfg(n, common.Atou(f[2]), common.Atou(f[3])); err != nil {
+				sim = nil
+				return "rejected"
+			}
+		} else {
+			sim = dvsim.NewSim(n)
+		}
 		link = make([][]bool, n)
 		ver, lastAdv, lastSeq = make([]uint64, n), make([]string, n), make([]uint64, n)
 		flights = map[[2]int][]flight{}
@@ -624,7 +706,7 @@ func exec(op string) string {
 		u, w := a[0], a[1]
 		started := 0
 		for _, p := range sim.SyncInterest(u, sim.Nodes[w].Name, dvsim.FaceOf(w), true, sim.Nodes[w].R.VerifAdvertSeq()) {
-			flights[[2]int{u, w}] = append(flights[[2]int{u, w}], flight{p, sim.AdvertWire(w)})
+			flights[[2]int{u, w}] = append(flights[[2]int{u, w}], flight{p, sim.AdvertWire(w), true})
 			started = 1
 		}
 		return sim.DumpRib(u) + fmt.Sprintf(" started=%d", started) + touched(u)
@@ -641,11 +723,50 @@ func exec(op string) string {
 		if f[3] != "last" {
 			i = common.Atoi(f[3])
 		}
-		if i < 0 || i >= len(fl) {
-			return "skip"
+		if i < 0 || i >= len(fl) || !fl[i].live {
+			return "skip" // no such fetch, or its Interest is no longer pending
 		}
 		sim.ReplyAdvert(fl[i].p, fl[i].content)
 		return sim.DumpRib(a[0]) + touched(a[0])
+	case "timeout", "outage":
+		// the Interest of the latest advertisement fetch of (u, w) is not answered: it times out (once /
+		// again and again for longer than the dead interval); the router's retry loop re-expresses it
+		a, ok := valid(f, 2)
+		if !ok || a[0] == a[1] {
+			return "skip"
+		}
+		u, w := a[0], a[1]
+		fl := flights[[2]int{u, w}]
+		if len(fl) == 0 || !fl[len(fl)-1].live {
+			return "skip"
+		}
+		cur := &fl[len(fl)-1]
+		once := func() {
+			cur.live = false
+			cur.p.Cb(ndn.ExpressCallbackArgs{Result: ndn.InterestResultTimeout})
+			time.Sleep(150 * time.Millisecond)
+			sim.Settle()
+			for _, p := range sim.Nodes[u].Eng.DropPending(dvsim.IsAdvertFetch) {
+				cur.p, cur.live = p, true // the retry
+			}
+		}
+		if f[0] == "timeout" {
+			once()
+		} else {
+			end := time.Now().Add(sim.Nodes[u].Cfg.RouterDeadInterval() + 2*time.Second)
+			for time.Now().Before(end) && cur.live {
+				time.Sleep(4 * time.Second) // Interest lifetime
+				once()
+			}
+			if d := time.Until(end); d > 0 {
+				time.Sleep(d)
+			}
+		}
+		pending := 0
+		if cur.live {
+			pending = 1
+		}
+		return sim.DumpRib(u) + fmt.Sprintf(" pending=%d", pending) + touched(u)
 	case "fetchrace":
 		a, ok := valid(f, 2)
 		if !ok || a[0] == a[1] {
